@@ -138,6 +138,7 @@ type outcome struct {
 	Pts     string   `json:"pts,omitempty"`     // pts: the result as a Coq term of type pts_result
 	Micros  int64    `json:"us"`                // decode wall time measured inside the child
 	CpuUs   int64    `json:"cpu_us"`            // CPU time (user+system, whole process) of the decode: robust to machine load
+	Over    bool     `json:"-"`                 // parent only: the CPU budget was used up without an answer
 	Starved bool     `json:"-"`                 // parent only: no answer within the wall limit although the CPU budget was not used up
 	PeakMB  int64    `json:"peak_mb,omitempty"` // filled in by the parent for hostile cases
 }
@@ -506,12 +507,11 @@ func (w *worker) kill() {
 	w.cmd.Wait()
 }
 
-// The property: time proportional to the input.  The budget is CPU time of the decoding process (user + system,
-// read from /proc/<pid>/stat), which does not depend on how many other processes share the machine: 1 s + 1 us per
-// byte and reader kind.  A decoder that loops burns the budget and is class "hang".  Wall-clock time is only an
-// inactivity limit (30 s + 10 us/byte): a decode that gets no answer within it although its CPU budget is not used
-// up was starved by the machine (or is blocked): it is retried once, alone, in a fresh process with twice the wall
-// limit, and only then reported.
+// The property: time proportional to the input.  The budget is CPU time of the decoding process (read from
+// /proc/<pid>/stat), which does not depend on how many other processes share the machine: 1 s + 1 us per byte and
+// reader kind of user time (four times that for user + system).  A decoder that loops burns the budget.  Wall-clock
+// time is only an inactivity limit (30 s + 10 us/byte).  Either way the first miss is not yet an observation: the
+// decode is retried once, alone, in a fresh process (twice the wall limit), and only a second miss is class "hang".
 func cpuBudgetFor(n int) time.Duration {
 	return time.Second + time.Duration(n)*time.Duration(len(readerKinds))*time.Microsecond
 }
@@ -520,23 +520,29 @@ func wallLimitFor(n int) time.Duration {
 }
 func deadlineFor(n int) time.Duration { return cpuBudgetFor(n) }
 
-// CPU time (user + system) a live process has used so far
-func procCPU(pid int) time.Duration {
+// CPU time a live process has used so far: user, and user + system.  ok = false: /proc could not be read (the
+// caller then skips the check for this tick instead of comparing with a wrong base).
+func procCPU(pid int) (user, total time.Duration, ok bool) {
 	raw, err := os.ReadFile(fmt.Sprintf("/proc/%d/stat", pid))
 	if err != nil {
-		return 0
+		return 0, 0, false
 	}
 	s := string(raw)
-	if i := strings.LastIndexByte(s, ')'); i >= 0 {
-		s = s[i+1:]
+	i := strings.LastIndexByte(s, ')')
+	if i < 0 {
+		return 0, 0, false
 	}
-	f := strings.Fields(s) // f[0] = state; utime, stime are fields 14, 15 of the line = f[11], f[12]
+	f := strings.Fields(s[i+1:]) // f[0] = state; utime, stime are fields 14, 15 of the line = f[11], f[12]
 	if len(f) < 13 {
-		return 0
+		return 0, 0, false
 	}
-	ut, _ := strconv.ParseInt(f[11], 10, 64)
-	st, _ := strconv.ParseInt(f[12], 10, 64)
-	return time.Duration(ut+st) * 10 * time.Millisecond // USER_HZ = 100
+	ut, e1 := strconv.ParseInt(f[11], 10, 64)
+	st, e2 := strconv.ParseInt(f[12], 10, 64)
+	if e1 != nil || e2 != nil {
+		return 0, 0, false
+	}
+	const tick = 10 * time.Millisecond // USER_HZ = 100
+	return time.Duration(ut) * tick, time.Duration(ut+st) * tick, true
 }
 
 func fmtCode(format string) byte {
@@ -595,7 +601,13 @@ func (p *pool) roundTrip(w *worker, format string, data []byte, wantPeak bool, k
 		err := json.Unmarshal(js, &o)
 		ch <- ans{o: o, err: err}
 	}()
-	cpu0 := procCPU(w.cmd.Process.Pid)
+	var u0, t0 time.Duration
+	ok0 := false
+	for try := 0; try < 5 && !ok0; try++ { // the base of the CPU measurement: this process is reused, it must be right
+		if u0, t0, ok0 = procCPU(w.cmd.Process.Pid); !ok0 {
+			time.Sleep(2 * time.Millisecond)
+		}
+	}
 	start := time.Now()
 	budget, wall := cpuBudgetFor(len(data)), time.Duration(wallFactor)*wallLimitFor(len(data))
 	tick := time.NewTicker(50 * time.Millisecond)
@@ -628,21 +640,24 @@ func (p *pool) roundTrip(w *worker, format string, data []byte, wantPeak bool, k
 			}
 			return a.o, true
 		case <-tick.C:
-			used := procCPU(w.cmd.Process.Pid) - cpu0
-			if used > budget {
+			u, t, ok := procCPU(w.cmd.Process.Pid)
+			var used, usedAll time.Duration
+			if ok && ok0 {
+				used, usedAll = u-u0, t-t0
+			}
+			// user time is the budget; system time is charged with the kernel's work under memory pressure
+			// (reclaim, contention), so the sum only counts at four times the budget
+			if used > budget || usedAll > 4*budget {
 				peak := vmHWM(w.cmd.Process.Pid)
 				w.kill()
-				p.mu.Lock()
-				p.hangs++
-				p.mu.Unlock()
-				return outcome{Cls: clsHang, PeakMB: peak, CpuUs: used.Microseconds(),
-					Msg: fmt.Sprintf("deadline exceeded: %.1f s of CPU time used for %d bytes (budget %.1f s), no result", used.Seconds(), len(data), budget.Seconds())}, false
+				return outcome{Cls: clsHang, Over: true, PeakMB: peak, CpuUs: usedAll.Microseconds(),
+					Msg: fmt.Sprintf("deadline exceeded: %.1f s of CPU time (%.1f s user) used for %d bytes (budget %.1f s), no result", usedAll.Seconds(), used.Seconds(), len(data), budget.Seconds())}, false
 			}
 			if time.Since(start) > wall {
 				peak := vmHWM(w.cmd.Process.Pid)
 				w.kill()
-				return outcome{Cls: clsHang, Starved: true, PeakMB: peak, CpuUs: used.Microseconds(),
-					Msg: fmt.Sprintf("deadline exceeded: no result within %.0f s of wall time (%.2f s of CPU time used, not spinning: blocked)", wall.Seconds(), used.Seconds())}, false
+				return outcome{Cls: clsHang, Starved: true, PeakMB: peak, CpuUs: usedAll.Microseconds(),
+					Msg: fmt.Sprintf("deadline exceeded: no result within %.0f s of wall time (%.2f s of CPU time used, not spinning: blocked)", wall.Seconds(), usedAll.Seconds())}, false
 			}
 		}
 	}
@@ -655,7 +670,7 @@ func (p *pool) decode(format string, data []byte) outcome {
 
 func (p *pool) decodeWith(format string, data []byte, kinds int) outcome {
 	o := p.decodeKind(format, data, kinds)
-	if o.Cls == clsHang && !o.Starved {
+	if o.Cls == clsHang && !o.Starved && kinds >= kindBig {
 		// which reader kind misses the deadline?
 		ks := bigKinds
 		if kinds == kindAll {
@@ -697,15 +712,16 @@ func (p *pool) decodeKind(format string, data []byte, kind int) outcome {
 			w.kill()
 		}
 	}
-	if o.Starved {
+	if o.Starved || o.Over {
 		o = p.retryAlone(format, data, false, kind)
 	}
 	return o
 }
 
-// retryAlone: the decode got no answer within the wall limit without using its CPU budget -- a busy machine, not
-// (yet) a defect of the decoder.  Wait until no other decode of this harness runs, then try once more in a fresh
-// process with twice the wall limit; what happens then is the observation.
+// retryAlone: the decode got no answer -- within the wall limit without using its CPU budget (a busy machine), or it
+// used up the budget (a loop, or a machine under such memory pressure that a tiny decode is charged seconds).  Not
+// yet an observation about the decoder: wait until no other decode of this harness runs, then try once more in a
+// fresh process with twice the wall limit; what happens then is the observation.
 func (p *pool) retryAlone(format string, data []byte, wantPeak bool, kind int) outcome {
 	p.mu.Lock()
 	p.starved++
@@ -720,11 +736,13 @@ func (p *pool) retryAlone(format string, data []byte, wantPeak bool, kind int) o
 	if ok {
 		w.kill()
 	}
+	p.mu.Lock()
 	if o.Starved {
-		p.mu.Lock()
 		p.hangs += hangLimit // a blocked decoder: one confirmed observation is enough
-		p.mu.Unlock()
+	} else if o.Over && kind >= kindBig { // (the per-kind decodes that name the reader are not counted again)
+		p.hangs++
 	}
+	p.mu.Unlock()
 	return o
 }
 
@@ -740,7 +758,7 @@ func (p *pool) decodeFresh(format string, data []byte) outcome {
 	if ok {
 		w.kill()
 	}
-	if o.Starved {
+	if o.Starved || o.Over {
 		o = p.retryAlone(format, data, true, kindAll)
 	}
 	return o
